@@ -1348,7 +1348,7 @@ def _stream_merge(ctx, workers):
     rng = ctx.rng
     names = [b"a", b"a.b", b"a-", b"a0", b"a.", b"b", b"ab", b"a b", b"A", b"\xff", b"a\x01", b"B"]
     cases = []
-    for _ in range(ctx.budget(250)):
+    for _ in range(ctx.budget(400)):
         def side():
             ns = rng.sample(names[:8] if rng.random() < 0.8 else names, rng.randint(0, 6))
             return [(n, rng.choice([REG, EXE, LNK, GITLINK, DIR]), rng.choice(POOL_IDS)) for n in ns]
@@ -1431,7 +1431,7 @@ def _stream_alphabet(ctx, workers):
 
 def _stream_pairs(ctx, workers, git, n=None, stream="pairs"):
     rng = ctx.rng
-    n = ctx.budget(450) if n is None else n
+    n = ctx.budget(1200) if n is None else n
     cases = []
     fixed = [
         ("fixed:empty", [], []),
@@ -1453,7 +1453,7 @@ def _stream_pairs(ctx, workers, git, n=None, stream="pairs"):
         elif rng.random() < 0.02:
             b = None
         cases.append(make_case(rng, tag, a, b))
-    git_every = max(1, len(cases) // (ctx.budget(60, mult=5))) if git is not None else 0
+    git_every = max(1, len(cases) // (ctx.budget(120, mult=5))) if git is not None else 0
     evaluate(ctx, stream, cases, workers, git, git_every)
 
 
